@@ -62,6 +62,14 @@ func prepBusy(w *engine.World, ctx sdk.Context, info map[string]any) sdk.Context
 	tp.BasePacketFee = uband(5)
 	tssh.Must(w.Tx(ctx, 0, tunneltypes.NewMsgUpdateParams(tssh.Authority.String(), tp)), "tunnel params")
 	tssh.ApplyParams(w, ctx, tssh.Params{SigningPeriod: 3, MaxSigningAttempt: 2, MaxDESize: 10, CreationPeriod: 6})
+	// a second fee denomination exists and Alice holds some (transactions may pay their fee in any denomination)
+	odd := sdk.NewCoins(sdk.NewInt64Coin("uabc", 1_000_000))
+	if err := w.App.BankKeeper.MintCoins(ctx, "mint", odd); err != nil {
+		panic(err)
+	}
+	if err := w.App.BankKeeper.SendCoinsFromModuleToAccount(ctx, "mint", bandtesting.Alice.Address, odd); err != nil {
+		panic(err)
+	}
 	// votes -> current feeds
 	tssh.Must(w.Tx(ctx, 0, restaketypes.NewMsgStake(bandtesting.Alice.Address, uband(100))), "stake")
 	tssh.Must(w.Tx(ctx, 0, feedstypes.NewMsgVote(bandtesting.Alice.Address.String(), []feedstypes.Signal{{ID: sigA, Power: 60}, {ID: sigB, Power: 40}})), "vote")
@@ -299,6 +307,14 @@ func Alphabet(info map[string]any) []*twin.TxGen {
 	add("globalfee.update-params.not-authority", A, &globalfeetypes.MsgUpdateParams{Authority: A.Address.String(), Params: globalfeetypes.DefaultParams()})
 	// ---- multi-message tx whose last message fails ----
 	add("multi.request-signature-then-fail", A, rs(tsstypes.NewTextSignatureOrder([]byte("m2")), uband(1000), A), banktypes.NewMsgSend(A.Address, B.Address, sdk.NewCoins(sdk.NewInt64Coin("nope", 1))))
+	// ---- fees paid in a second denomination (any denomination is accepted at min gas price 0); the amounts straddle the
+	// number of rewarded tss members, so that a member's share of that denomination truncates to zero ----
+	if _, busy := info["busy"]; busy {
+		for _, amt := range []int64{1, 25, 50, 80, 100, 250} {
+			out = append(out, &twin.TxGen{Name: fmt.Sprintf("fee.second-denom.%d", amt), Signer: A, Fee: sdk.NewCoins(sdk.NewInt64Coin("uabc", amt)),
+				Msgs: one(banktypes.NewMsgSend(A.Address, bandtesting.Bob.Address, uband(1)))})
+		}
+	}
 	return out
 }
 
